@@ -113,6 +113,11 @@ def run(model, tier="quick"):
     res.units["guard_primitives"] = base_helpers(res, model, ("require", "sub_base", "pm"))   # the guard forms the rule accepts
     from ..rules.rollback import rollback_rule
     res.units["compensation_handlers"] = rollback_rule(model, res)
+    # every Aave figure is read through the memo caches: their typestate (no stale read, no stale exit) is a premise here
+    from ..rules.cache import run_cache
+    if "R-CACHE" not in res.rules:
+        res.rules.append("R-CACHE")
+    res.units["aave_cache_writer_methods"] = run_cache(model, res, "AaveV3Market", res.prop)[0]
     from ..rules.fresh import fresh_rule
     if "R-FRESH" not in res.rules:
         res.rules.append("R-FRESH")
